@@ -297,6 +297,25 @@ pub fn c10(thorough: bool) -> Vec<Unit> {
         // AckUnknown on an absent sub must be NOT_FOUND too
         v.push(seq_unit(c));
     }
+    // what a subscription reads back as must survive its use: streams opened on it (whose initial request carries its
+    // own stream_ack_deadline_seconds), pulls, modifications and the deletion of its topic
+    {
+        let alphabet = vec![
+            Op::StreamOpen(S0, 1000),
+            Op::StreamOpen(S1, 1),
+            Op::Publish(T0, 1),
+            Op::Pull(S0, 10),
+            Op::Mod(S0, Oldest, 30),
+            Op::GetSub(S0),
+            Op::GetSub(S1),
+            Op::ListSubs("p", 0),
+            Op::DeleteTopic(T0),
+        ];
+        let setup = vec![Op::CreateTopic(T0), Op::CreateSub(S0, T0, 20), Op::CreateSub(S1, T0, 600)];
+        let mut c = cfg("read-back-after-use", "subscriptions created with 20 s and 600 s ack deadlines are used (streams, pulls, modifications, topic deletion) and read back by get / list: name, topic, ack deadline and push configuration as created", setup, alphabet, if thorough { 5 } else { 3 });
+        c.all_enabled = true;
+        v.push(seq_unit(c));
+    }
     // the same with a topic in each of two projects already there, so that listings that mix projects are reached early
     {
         let mut c = cfg("namespace-two-projects", "as above, starting with one topic in each of two projects; subscriptions with the same id in both", vec![Op::CreateTopic(T0), Op::CreateTopic(TQ)], alphabet.clone(), if thorough { 5 } else { 4 });
